@@ -21,13 +21,18 @@ const (
 )
 
 func (v ControlState) String() string {
-	return [...]string{"", "normally open", "normally closed", "controlled"}[v]
+	lookup := [...]string{"", "normally open", "normally closed", "controlled"}
+
+	// NTS: control states received from a controller are not necessarily valid
+	if v < 0 || int(v) >= len(lookup) {
+		return ""
+	}
+
+	return lookup[v]
 }
 
 func (v ControlState) MarshalJSON() ([]byte, error) {
-	s := [...]string{"", "normally open", "normally closed", "controlled"}[v]
-
-	return json.Marshal(s)
+	return json.Marshal(v.String())
 }
 
 func (v *ControlState) UnmarshalJSON(b []byte) error {
